@@ -38,6 +38,7 @@ func (c12) Assumptions() []string {
 	return []string{
 		"the injected error is recognised by errors.As/Is or by its unique token in the error text (wrapping without %w is not a false alarm); a hash mismatch reported by go-ipld-prime for corrupted bytes counts as the load error",
 		"file DAGs declare child sizes (interior nodes without BlockSizes must open every child before the first byte and are excluded from this property)",
+		"an empty (zero-length) block is needed by a full sequential read like any other block: the read visits every block of the file in link order",
 		"only error-returning entry points are judged (native Lookup/Length cannot report an error)",
 		"the root block of the entity is available (otherwise nothing can be opened)",
 	}
@@ -53,7 +54,7 @@ func (c12) Runs(t Tier) int {
 }
 func (c12) RecordWidths() map[string]int { return nil }
 func (c12) RequiredProbes() []string {
-	return []string{"missing-interior-file-block", "missing-last-leaf", "missing-first-leaf", "missing-last-link-shard", "missing-nested-shard", "lookup-blocked", "lookup-not-blocked-under-fault", "kth-load-transient", "subset-fault", "hamt-depth>=3", "dedup-file-block-faulted"}
+	return []string{"missing-interior-file-block", "missing-last-leaf", "missing-first-leaf", "missing-last-link-shard", "missing-nested-shard", "lookup-blocked", "lookup-not-blocked-under-fault", "kth-load-transient", "subset-fault", "hamt-depth>=3", "dedup-file-block-faulted", "missing-empty-block"}
 }
 
 type c12Scenario struct {
@@ -405,29 +406,19 @@ func (c12) runFile(ts *tape.Set, tier Tier) *Result {
 			if len(p.targets) > 1 {
 				res.probe("subset-fault")
 			}
-			// a zero-length block contributes no bytes and may legitimately be
-			// skipped without being loaded, so any of its occurrences up to the
-			// first unavailable non-empty block is an acceptable failure point
+			// a full sequential read walks every block of the file in link
+			// order, empty ones included (C06/C20), so the first unavailable
+			// block in that order - whatever its length - ends the read
 			min := int64(-1)
 			for _, t := range p.targets {
-				if zeroLen[t.KeyString()] {
-					continue
-				}
 				if s, ok := firstStart[t.KeyString()]; ok && (min < 0 || s < min) {
 					min = s
 				}
 			}
-			okLens = map[int64]bool{}
-			if min >= 0 {
-				okLens[min] = true
-			}
+			okLens = map[int64]bool{min: true}
 			for _, t := range p.targets {
 				if zeroLen[t.KeyString()] {
-					for s := range starts[t.KeyString()] {
-						if min < 0 || s <= min {
-							okLens[s] = true
-						}
-					}
+					res.probe("missing-empty-block")
 				}
 			}
 			for _, t := range p.targets {
